@@ -35,6 +35,8 @@ def expected_from_log(srv, alg, banner):
         if not neg or neg[0] != alg:
             continue
         for (mn, pref, mx, bits) in r['gex_requests']:
+            if (mn, pref, mx) == (1024, 2048, 8192):
+                continue        # the host-key probe's own group exchange, not part of the modulus probe sequence
             if (mn, pref, mx) == (2048, 3072, 4096):
                 follow = bits
             elif bits is not None:
